@@ -86,3 +86,10 @@ Example C17_example :
   | None => False
   end.
 Proof. vm_compute. reflexivity. Qed.
+
+(* the numbers and tables this property's model uses are the ones the sources declare: Model/GenConsts.v is
+   regenerated from the repository under test (tools/consts) before every build *)
+From V Require Import Model.GenConsts Proofs.TieC17.
+Theorem C17_constants_are_the_sources : TieC17.tie.
+Proof. exact TieC17.tie_holds. Qed.
+Print Assumptions C17_constants_are_the_sources.
